@@ -245,6 +245,13 @@ func cmdCheck(args []string) int {
 				}
 				status, detail = replayCex(path)
 				ev.Replays = append(ev.Replays, map[string]string{"harness": h.Func, "label": label, "status": status, "file": path})
+				if status == "crashed" {
+					// the real code died (unrecovered panic / runtime fatal error) when run natively with
+					// the model's values: counted as a reproduction of the violation the solver found
+					status = "reproduced"
+					detail = "the real code crashed natively under this model: " + detail
+					fmt.Printf("  native run of %s crashed: %s\n", path, detail)
+				}
 				if status == "reproduced" {
 					break
 				}
@@ -468,6 +475,20 @@ func TestVerifReplay(t *testing.T) {
 				d = parts[1]
 			}
 			return parts[0], d
+		}
+	}
+	// an unrecovered panic or a runtime fatal error of the real code under the model's values
+	for _, line := range strings.Split(out, "\n") {
+		if strings.HasPrefix(line, "panic: ") || strings.HasPrefix(line, "fatal error: ") {
+			where := ""
+			for _, l2 := range strings.Split(out, "\n") {
+				l2 = strings.TrimSpace(l2)
+				if strings.HasPrefix(l2, repoDir+"/") && !strings.Contains(l2, "/zzverif/") && !strings.Contains(l2, "zz_verif_") {
+					where = l2
+					break
+				}
+			}
+			return "crashed", line + " at " + where
 		}
 	}
 	tail := out
